@@ -244,11 +244,16 @@ def r18_2(ctx):
     snd = [(n, c) for (n, c) in q.calls(ac, conn2 + '.send_bytes')]
     d2 = [(dn, v) for (dn, t, v) in q.assigns(ac, None) if v is not None and any(x is a2 for x in ast.walk(v))]
     d2n = ast.unparse(d2[0][0].ast.targets[0]) if d2 else '?'
-    ok = len(snd) == 1 and ast.unparse(snd[0][1].args[0]) == d2n
+    ok = len(snd) == 1 and (ast.unparse(snd[0][1].args[0]) == d2n or
+                            # ... or the digest expression itself is the argument
+                            any(x is a2 for x in ast.walk(snd[0][1].args[0])))
+    if ok and not d2:
+        d2n = ast.unparse(snd[0][1].args[0])
     ctx.ob('R18.2', 'answer_challenge:sends-the-digest', ok, ac, snd[0][1] if snd else None, 'connection.send_bytes(%s)' % d2n)
     rz2 = [n for n in cfg2.where(lambda n: isinstance(n.ast, ast.Raise) and 'AuthenticationError' in ast.unparse(n.ast))]
     rv2 = sorted([(n, c) for (n, c) in q.calls(ac, conn2 + '.recv_bytes')], key=lambda x: x[1].lineno)
-    r2n = ast.unparse(rv2[-1][0].ast.targets[0]) if rv2 and isinstance(rv2[-1][0].ast, ast.Assign) else '?'
+    r2n = ast.unparse(rv2[-1][0].ast.targets[0]) if rv2 and isinstance(rv2[-1][0].ast, ast.Assign) else \
+        ac.canon(rv2[-1][1]) if rv2 else '?'        # the verdict compared where it is read
     welcomed = q.outcome_edges(ac, q.eq_text(r2n, 'WELCOME'), True)
     refused = q.outcome_edges(ac, q.eq_text(r2n, 'WELCOME'), False)
     ok = bool(rz2) and bool(refused) and all(q.has_guard(ac, n, q.eq_text(r2n, 'WELCOME'), False) for n in rz2)
